@@ -56,3 +56,46 @@ def replay_write_context(w, rec):
 
 
 REPLAYS['MessageSerializer_mux._WriteContext'] = replay_write_context
+
+
+def replay_serializer_sink_buffers(w, rec):
+  """Several calls through one serializer sink while the transport below keeps their streams (as it does for requests
+  parked behind a connection that is still opening): every kept stream must still hold its own call's bytes."""
+  from io import BytesIO
+  from scales.thriftmux.sink import ThriftMuxMessageSerializerSink
+  from scales.message import MethodCallMessage
+  from scales.sink import ClientMessageSinkStack
+  from scales.constants import SinkProperties
+  kept = []
+  class Next(object):
+    def AsyncProcessRequest(self, sink_stack, msg, stream, headers):
+      kept.append((msg, stream, stream.getvalue()))
+  sink = ThriftMuxMessageSerializerSink.__new__(ThriftMuxMessageSerializerSink)
+  class Ser(object):
+    def Marshal(self, msg, buf, headers):
+      buf.write(('call:%s' % (msg.args,)).encode())
+  class V(object):
+    def __getattr__(self, n):
+      return lambda *a, **k: None
+  class Prov(object):
+    def CreateSink(self, props):
+      return Next()
+  ThriftMuxMessageSerializerSink.__init__(sink, Prov(), None, {SinkProperties.ServiceInterface: None, SinkProperties.Label: 'replay'})
+  sink._serializer = Ser()
+  sink._varz = V()
+  sink.next_sink = Next()
+  for k in range(3):
+    sink.AsyncProcessRequest(ClientMessageSinkStack(), MethodCallMessage(None, 'hi', ('req-%d' % k,), {}), None, {})
+  bad = []
+  if len(kept) != 3:
+    return False, 'harness: %d of 3 calls were forwarded' % len(kept)
+  for msg, stream, at_forward in kept:
+    now = stream.getvalue()
+    if now != at_forward or ('%s' % (msg.args,)).encode() not in now:
+      bad.append('call %r: the stream the transport kept now reads %r (it held %r when it was forwarded)' % (msg.args, now, at_forward))
+  if len(set(id(s) for _, s, _ in kept)) != 3:
+    bad.append('the 3 calls were marshalled into %d buffer object(s)' % len(set(id(s) for _, s, _ in kept)))
+  return bool(bad), '\n'.join(bad) or 'every call keeps a buffer of its own'
+
+
+REPLAYS['ThriftMuxMessageSerializerSink.AsyncProcessRequest'] = replay_serializer_sink_buffers
